@@ -121,8 +121,8 @@ def run_correct(case, ctx):
         ctx.check(bits_equal(x, xs), 'input_modified:x', '')
         ctx.check(list(corrected.index) == list(pva.index), 'schema', str(list(corrected.index)))
         if not wa:
-            ctx.check(np.float64(corrected.alt).view(np.uint64) == np.float64(pva.alt).view(np.uint64) and
-                      np.float64(corrected.VD).view(np.uint64) == np.float64(pva.VD).view(np.uint64),
+            # exact VALUE equality (-0.0 == 0.0: alt - (-0.0) turns a negative zero altitude into +0.0, the same altitude)
+            ctx.check(corrected.alt == pva.alt and corrected.VD == pva.VD,
                       'correction_changed_vertical', lambda: f'alt {pva.alt!r}->{corrected.alt!r} VD {pva.VD!r}->{corrected.VD!r}')
         pred = T_out @ x
         own = EC.output_difference(pva, corrected)
